@@ -448,6 +448,7 @@ func loopFieldsEq(a, b *s2.Loop) (bool, string) {
 }
 
 func loops(c *vkit.Collector, rng *vkit.Rng, budget int) {
+	reused := new(s2.Loop) // one receiver for all decodes: what it held before must not matter
 	for k := 0; k < 40*budget; k++ {
 		l, class := cg.GenLoop(rng)
 		b, err := cg.Enc(func(w *bytes.Buffer) error { return l.Encode(w) })
@@ -464,6 +465,11 @@ func loops(c *vkit.Collector, rng *vkit.Rng, budget int) {
 		}
 		if ok, what := loopFieldsEq(l, q); !ok {
 			violate(c, "Loop.roundtrip", "decode(encode(loop)) differs in "+what, rep)
+		}
+		if rerr := reused.Decode(bytes.NewReader(b)); rerr != nil {
+			violate(c, "Loop.Decode.reuse.differs", "decoding into a used receiver fails: "+rerr.Error(), rep)
+		} else if ok, what := loopFieldsEq(q, reused); !ok || reused.NumEdges() != q.NumEdges() {
+			violate(c, "Loop.Decode.reuse.differs", "decoding into a used receiver differs from a fresh decode in "+what, rep)
 		}
 		if !bytes.Equal(b, b2) {
 			violate(c, "Loop.deterministic", "two encodings differ", rep)
@@ -507,10 +513,43 @@ func derivedState(c *vkit.Collector, q *s2.Polygon, rep map[string]interface{}) 
 
 // ---- Polygon (both formats) ----
 
+// samePolygon compares a polygon decoded into a used receiver with a fresh decode of the same bytes.
+func samePolygon(a, b *s2.Polygon) string {
+	la, ha, ba, na := s2.VerifC09PolygonFields(a)
+	lb, hb, bb, nb := s2.VerifC09PolygonFields(b)
+	if len(la) != len(lb) || ha != hb || !rectEq(ba, bb) || na != nb {
+		return "loop count / hasHoles / bound / numVertices"
+	}
+	for i := range la {
+		if ok, what := loopFieldsEq(la[i], lb[i]); !ok {
+			return fmt.Sprintf("loop %d %s", i, what)
+		}
+	}
+	if a.NumEdges() != b.NumEdges() || a.NumChains() != b.NumChains() {
+		return "numEdges / numChains"
+	}
+	for e := 0; e < a.NumEdges() && e < 400; e++ {
+		if a.Edge(e) != b.Edge(e) || a.ChainPosition(e) != b.ChainPosition(e) {
+			return fmt.Sprintf("edge %d", e)
+		}
+	}
+	return ""
+}
+
 func polygons(c *vkit.Collector, rng *vkit.Rng, budget int) {
 	formats := map[string]int{}
+	reused := new(s2.Polygon) // one receiver for all decodes, both formats
 	for k := 0; k < 60*budget; k++ {
 		p, class := cg.GenPolygon(rng)
+		if k%20 == 0 {
+			// more than 12 loops: the polygon keeps a cumulative edge table, which a later decode
+			// into the same receiver must not inherit
+			ls := make([]*s2.Loop, 13+rng.Intn(4))
+			for i := range ls {
+				ls[i] = cg.RawLoop(rng, cg.Vertices(rng, cg.OneLevel, 3+rng.Intn(2), 20))
+			}
+			p, class = s2.VerifC09PolygonRaw(ls, false, cg.ValidRect(rng)), "polygon:many-loops"
+		}
 		b, err := cg.Enc(func(w *bytes.Buffer) error { return p.Encode(w) })
 		b2, _ := cg.Enc(func(w *bytes.Buffer) error { return p.Encode(w) })
 		c.Class(class)
@@ -545,6 +584,21 @@ func polygons(c *vkit.Collector, rng *vkit.Rng, budget int) {
 		}
 		qloops, qhh, qbound, _ := s2.VerifC09PolygonFields(q)
 		derivedState(c, q, rep)
+		func() {
+			defer func() {
+				if r := recover(); r != nil {
+					violate(c, "Polygon.Decode.reuse.differs", fmt.Sprintf("a polygon decoded into a used receiver panics: %v", r), rep)
+					reused = new(s2.Polygon)
+				}
+			}()
+			if rerr := reused.Decode(bytes.NewReader(b)); rerr != nil {
+				violate(c, "Polygon.Decode.reuse.differs", "decoding into a used receiver fails: "+rerr.Error(), rep)
+			} else if d := samePolygon(q, reused); d != "" {
+				violate(c, "Polygon.Decode.reuse.differs", "decoding into a used receiver differs from a fresh decode: "+d, rep)
+			} else {
+				derivedState(c, reused, rep)
+			}
+		}()
 		// [S] field by field
 		if len(qloops) != len(loopsP) {
 			violate(c, "Polygon.roundtrip", "loop count differs", rep)
